@@ -4,6 +4,7 @@ create/update(status?, schedule?)/delete/restart operations over 2 (thorough: al
 generation bound is replayed on the real middleware.CoordinatingTaskService + coordinator.Coordinator (+
 backend.NotifyCoordinatorOfExisting for restart) in front of an in-memory task store and a recording scheduler, and the
 Schedule/Release call log, folded into id -> schedule, is compared with the specification after every step."""
+import concurrent.futures as cf
 import json
 
 import tlaval
@@ -28,23 +29,34 @@ def run(ctx):
     tier = ctx.tier
     quick = tier == 'quick'
     binary = ctx.go_build('coord')
-    # 1. the contract on the model: all histories up to MaxOps (VIEW hides the history, keeps its length)
-    r = ctx.tlc_must_pass('TaskCoordinator', f'TaskCoordinator.MC_{tier}.cfg', timeout=280 if quick else 900, coverage=True,
-                          workers=4)
-    ctx.check_coverage(r, ['CreateTask', 'UpdateTask', 'DeleteTask', 'Restart'])
-    # 2. lead: the coordinator as found (TaskCreated does not look at the status) violates the contract on the model
-    lead = ctx.tlc('TaskCoordinator', 'TaskCoordinator.Lead_F4.cfg', timeout=280, workers=1, count=False)
+    # TLC runs in parallel: (1) the contract on the model, all histories up to MaxOps (VIEW hides the history, keeps its
+    # length); (2) lead: the coordinator as found (TaskCreated does not look at the status) violates the contract on the
+    # model; (3) every history up to the generation bound
+    jobs = {
+        'mc': dict(cfg=f'TaskCoordinator.MC_{tier}.cfg', timeout=280 if quick else 900, coverage=True, workers=max(1, vlib.NCPU // 2)),
+        'lead': dict(cfg='TaskCoordinator.Lead_F4.cfg', timeout=280, workers=1, count=False),
+        'gen': dict(cfg=f'TaskCoordinator.Gen_{tier}.cfg', timeout=280 if quick else 1500, dump=True, workers=max(1, vlib.NCPU // 2)),
+    }
+    res = {}
+    with cf.ThreadPoolExecutor(max_workers=2) as ex:
+        futs = {k: ex.submit(lambda kw: ctx.tlc('TaskCoordinator', kw.pop('cfg'), **kw), dict(v, tag=k)) for k, v in jobs.items()}
+        for k, f in futs.items():
+            res[k] = f.result()
+    for k in ('mc', 'gen'):
+        if res[k].timed_out:
+            raise vlib.Inconclusive(f'TLC timed out on {jobs[k]["cfg"]}')
+        if not res[k].ok:
+            raise vlib.Inconclusive(f'TLC did not pass on {jobs[k]["cfg"]}: violated={res[k].violated}\n' + '\n'.join(res[k].stdout.splitlines()[-30:]))
+    ctx.check_coverage(res['mc'], ['CreateTask', 'UpdateTask', 'DeleteTask', 'Restart'])
+    lead, g = res['lead'], res['gen']
     if lead.violated != 'OnlyActiveScheduled' or not lead.trace:
         raise vlib.Inconclusive('lead run: the as-found model no longer violates OnlyActiveScheduled\n' + lead.stdout[-1200:])
     lead_hist = tlaval.plain(lead.trace[-1][1])['hist']
     ctx.extra_cov['model_lead_F4_asfound'] = 'OnlyActiveScheduled violated by: ' + json.dumps([{k: v for k, v in s.items() if k != 'exp'} for s in lead_hist])
-    # 3. every history up to the generation bound
-    g = ctx.tlc_must_pass('TaskCoordinator', f'TaskCoordinator.Gen_{tier}.cfg', timeout=280 if quick else 1500, dump=True,
-                          workers=4 if quick else 8)
     maxops = 4 if quick else 5
     blocks = [b for b in _blocks(g.dump_path) if b.count('exp |->') == maxops]
     total = len(blocks)
-    budget = 4000 if quick else 60000
+    budget = 20000 if quick else 60000
     chosen = vlib.sample_list(ctx.rng, blocks, budget)
     ctx.exhaustive = (len(chosen) == total)
     nconc = 1 if quick else 2
